@@ -1196,6 +1196,22 @@ theorem connectHold_fc_inv (L : Fc11Laws P) (s : Server) (conn : Nat) (k : Conne
         show P (getObj s1 i)
         rw [hgi]; exact fc11_parseConnect L s conn k
 
+/-- a condition on the object a connection number is bound to (none: the op does nothing) -/
+def fc11OnConn (s : Server) (conn : Nat) (f : Nat → Prop) : Prop :=
+  match assocGet s.connOf conn with
+  | some i => f i
+  | none => True
+
+instance (s : Server) (conn : Nat) (f : Nat → Prop) [DecidablePred f] : Decidable (fc11OnConn s conn f) := by
+  unfold fc11OnConn
+  cases assocGet s.connOf conn <;> infer_instance
+
+theorem fc11OnConn.get {s : Server} {conn : Nat} {f : Nat → Prop} (h : fc11OnConn s conn f) (i : Nat)
+    (hi : assocGet s.connOf conn = some i) : f i := by
+  unfold fc11OnConn at h
+  rw [hi] at h
+  exact h
+
 /-- the local condition on a parked CONNECT that is released -/
 def fc11PendOK (P : Client → Prop) (s : Server) (p : Pending) : Prop :=
   if p.stage == 1 then p.refuse.isSome = true ∨ (assocGet s.clients p.k.id = none ∧ P (getObj s p.obj))
@@ -1232,6 +1248,21 @@ theorem connectRelease_fc_inv (L : Fc11Laws P) (s : Server) (p : Pending) (hg : 
       rw [this, hg, admitC_absent]
       exact fun j r => (h.of_fc g2) j r
 
+instance fc11PendOK_dec (P : Client → Prop) [DecidablePred P] (s : Server) (p : Pending) :
+    Decidable (fc11PendOK P s p) := by
+  unfold fc11PendOK; infer_instance
+
+/-- the released handler is a parked CONNECT: `fc11PendOK` -/
+def fc11RelOK (P : Client → Prop) (s : Server) (conn : Nat) : Prop :=
+  match s.pending.find? (·.conn == conn) with
+  | some p => fc11PendOK P { s with pending := s.pending.filter (·.conn != conn) } p
+  | none => True
+
+instance fc11RelOK_dec (P : Client → Prop) [DecidablePred P] (s : Server) (conn : Nat) :
+    Decidable (fc11RelOK P s conn) := by
+  unfold fc11RelOK
+  cases s.pending.find? (·.conn == conn) <;> infer_instance
+
 /-! ### the guard on ops and the step theorem -/
 
 /-- **the local condition on an op** (decidable when `P` is): the op's own acknowledgement handling keeps `P` on the
@@ -1241,16 +1272,16 @@ theorem connectRelease_fc_inv (L : Fc11Laws P) (s : Server) (p : Pending) (hg : 
 def fc11OpOK (P : Client → Prop) (s : Server) : Op → Prop
   | .connect _ k => assocGet s.clients k.id = none
   | .connectHold _ k _ => assocGet s.clients k.id = none
-  | .recv conn pk => ∀ i, assocGet s.connOf conn = some i → fc11PkOK P s i pk
-  | .recvCut conn pk => ∀ i, assocGet s.connOf conn = some i →
-      fc11PkOK P (modObj s i (fun c => { c with peerGone := true })) i pk
-  | .release conn =>
-    match s.pending.find? (·.conn == conn) with
-    | some p => fc11PendOK P { s with pending := s.pending.filter (·.conn != conn) } p
-    | none => True
-  | .tick kind t => kind = "inflight" → ∀ k, Fc11Reg s k → P (getObj s k) → P (getObj (tickInflight s t) k)
+  | .recv conn pk => fc11OnConn s conn (fun i => fc11PkOK P s i pk)
+  | .recvCut conn pk => fc11OnConn s conn (fun i =>
+      fc11PkOK P (modObj s i (fun c => { c with peerGone := true })) i pk)
+  | .release conn => fc11RelOK P s conn
+  | .tick kind t => kind = "inflight" → ∀ e ∈ s.clients, P (getObj s e.2) → P (getObj (tickInflight s t) e.2)
   | .inlinePublish topic payload retain qos => fc11PkOK P s 0 (.publish qos false retain qos topic payload 0 none)
   | _ => True
+
+instance fc11OpOK_dec (P : Client → Prop) [DecidablePred P] (s : Server) (op : Op) : Decidable (fc11OpOK P s op) := by
+  cases op <;> simp only [fc11OpOK] <;> infer_instance
 
 theorem fc11_step (L : Fc11Laws P) (s : Server) (op : Op) (hwf : WF s) (hf : OpFresh s op) (hst : Fc11Store s)
     (hg : fc11OpOK P s op) (h : Fc11Inv P s) : Fc11Inv P (step s op).1 := by
@@ -1270,7 +1301,7 @@ theorem fc11_step (L : Fc11Laws P) (s : Server) (op : Op) (hwf : WF s) (hf : OpF
     · exact i1
   | recv conn pk =>
     rw [step]
-    exact h.of_fc (recvOn_fc L s conn pk true hwf (fun _ => hst.1) hg)
+    exact h.of_fc (recvOn_fc L s conn pk true hwf (fun _ => hst.1) (fun i hi => (show fc11OnConn s conn _ from hg).get i hi))
   | drop conn =>
     rw [step]
     split
@@ -1303,7 +1334,7 @@ theorem fc11_step (L : Fc11Laws P) (s : Server) (op : Op) (hwf : WF s) (hf : OpF
             have hj' : assocGet s.connOf conn = some j := hj
             rw [hc] at hj'
             cases hj'
-            exact hg i hc)
+            exact (show fc11OnConn s conn _ from hg).get i hc)
           rw [h2] at this
           exact g1.trans this
         have w2 : WF s2 := by
@@ -1390,7 +1421,9 @@ theorem fc11_step (L : Fc11Laws P) (s : Server) (op : Op) (hwf : WF s) (hf : OpF
         · rename_i hk
           have hk' : kind = "inflight" := by simpa using hk
           exact h.of_fc ⟨(tickInflight_good s t).clients,
-            fun k r x => hg hk' k (r.of_sublist (tickInflight_good s t).clients) x⟩
+            fun k r x => by
+              obtain ⟨id, hm⟩ := r.of_sublist (tickInflight_good s t).clients
+              exact hg hk' (id, k) hm x⟩
         · split
           · exact h.of_fc (tickWills_fc L s t hst.2)
           · exact h
@@ -1412,6 +1445,17 @@ theorem fc11_step (L : Fc11Laws P) (s : Server) (op : Op) (hwf : WF s) (hf : OpF
 def fc11OpsOK (P : Client → Prop) (s : Server) : List Op → Prop
   | [] => True
   | op :: ops => OpFresh s op ∧ Fc11Store s ∧ fc11OpOK P s op ∧ fc11OpsOK P (step s op).1 ops
+
+instance fc11OpsOK_dec (P : Client → Prop) [DecidablePred P] (s : Server) (ops : List Op) :
+    Decidable (fc11OpsOK P s ops) :=
+  match ops with
+  | [] => isTrue trivial
+  | op :: ops =>
+    if h1 : OpFresh s op ∧ Fc11Store s ∧ fc11OpOK P s op then
+      match fc11OpsOK_dec P (step s op).1 ops with
+      | isTrue g => isTrue ⟨h1.1, h1.2.1, h1.2.2, g⟩
+      | isFalse g => isFalse (fun g' => g g'.2.2.2)
+    else isFalse (fun g' => h1 ⟨g'.1, g'.2.1, g'.2.2.1⟩)
 
 theorem fc11_run (L : Fc11Laws P) (s : Server) (ops : List Op) (hwf : WF s) (h : Fc11Inv P s)
     (hg : fc11OpsOK P s ops) : Fc11Inv P (run s ops) := by
